@@ -62,6 +62,52 @@ func suitePage(t *testing.T, cfg cfgT) {
 	ctx := context.Background()
 	sizesN := []int{0, 1, 2, 5, 30, 99, 100, 101, 150, 201, 250}
 	emitted := 0
+	// internal consumers of keyset pagination: the traverser pages through the subject sets of one object#relation 1000 at
+	// a time; with 999 / 1000 / 1001 / 2003 of them every row must come back exactly once
+	for _, n := range []int{999, 1000, 1001, 2003} {
+		e := newEnv(t, driver.WithNamespaces(nsList(stNamespaces...)))
+		var ts []*ketoapi.RelationTuple
+		for i := 0; i < n; i++ {
+			ts = append(ts, &ketoapi.RelationTuple{Namespace: "n", Object: "wide", Relation: "r",
+				SubjectSet: &ketoapi.SubjectSet{Namespace: "m", Object: fmt.Sprintf("g%d", i), Relation: "s"}})
+		}
+		its, err := e.reg.Mapper().FromTuple(ctx, ts...)
+		if err == nil {
+			err = e.reg.RelationTupleManager().WriteRelationTuples(ctx, its...)
+		}
+		if err != nil {
+			t.Fatalf("wide insert: %v", err)
+		}
+		q, _ := e.reg.ReadOnlyMapper().FromTuple(ctx, &ketoapi.RelationTuple{Namespace: "n", Object: "wide", Relation: "r", SubjectID: strp("nobody")})
+		res, err := e.reg.Traverser().TraverseSubjectSetExpansion(ctx, q[0])
+		want := map[string]int{}
+		for _, it := range its {
+			want[it.Subject.String()]++
+		}
+		got := map[string]int{}
+		for _, x := range res {
+			got[fmt.Sprintf("%s:%s#%s", x.To.Namespace, x.To.Object, x.To.Relation)]++
+		}
+		missing, extra := 0, 0
+		for k, c := range want {
+			if got[k] < c {
+				missing += c - got[k]
+			}
+		}
+		for k, c := range got {
+			if want[k] < c {
+				extra += c - want[k]
+			}
+		}
+		obs := "complete"
+		if err != nil || missing > 0 || extra > 0 {
+			obs = fmt.Sprintf("returned %d of %d: %d missing, %d unexpected or repeated, err=%v", len(res), n, missing, extra, err != nil)
+		}
+		out.emit(fmt.Sprintf("pinternal traverser-expansion %d", n), obs)
+		out.stat("internal.traverser")
+		emitted++
+		e.close()
+	}
 	for emitted < cfg.n {
 		hr := r.fork()
 		e := newEnv(t, driver.WithNamespaces(nsList(stNamespaces...)))
